@@ -942,9 +942,9 @@ impl<'gc, 'r> Env<'gc, 'r> {
         if tf.is_some() != own {
             ex.violate("C14", "try-fetch-wrong", format!("set {} try_fetch(handle {hi} issued by set {} of arena {}) is_ok = {}", s.0, mh.set, mh.arena, tf.is_some()));
         }
-        obs::set_quiet_panics(true);
+        let prev = obs::set_quiet_panics(true);
         let f = catch_unwind(AssertUnwindSafe(|| h.fetch(setp)));
-        obs::set_quiet_panics(false);
+        obs::set_quiet_panics(prev);
         match f {
             Ok(r) => {
                 if !own {
